@@ -16,23 +16,35 @@ def b2s(b: bytes) -> str:
 # --------------------------------------------------------------------------- requests
 
 
+def _with_framing(req: Dict[str, Any], body_len: int) -> List[list]:
+    """The header list as sent: the framing header sits at `framing_pos` (default: last)."""
+    hdrs = [list(h) for h in req.get("headers", [])]
+    framing = req.get("framing", "none")
+    extra = None
+    if framing == "cl":
+        extra = ["content-length", str(body_len)]
+    elif framing == "chunked":
+        extra = ["transfer-encoding", "chunked"]
+    if extra is not None:
+        pos = req.get("framing_pos")
+        pos = len(hdrs) if pos is None else min(max(int(pos), 0), len(hdrs))
+        hdrs.insert(pos, extra)
+    return hdrs
+
+
 def encode_request(req: Dict[str, Any]) -> bytes:
     """req: method, path (raw, percent-encoded, latin-1 str), query (None or str), version,
     headers [[name, value] or [name, value, ows_before, ows_after]], framing none|cl|chunked,
     body (latin-1 str), chunks (list of sizes for chunked), chunk_ext (bool), trailers."""
     target = req["path"] + ("?" + req["query"] if req.get("query") is not None else "")
     out = [s2b(f"{req['method']} {target} HTTP/{req.get('version', '1.1')}\r\n")]
-    for h in req.get("headers", []):
+    body = s2b(req.get("body", ""))
+    framing = req.get("framing", "none")
+    for h in _with_framing(req, len(body)):
         name, value = h[0], h[1]
         ows_b = h[2] if len(h) > 2 else " "
         ows_a = h[3] if len(h) > 3 else ""
         out.append(s2b(f"{name}:{ows_b}{value}{ows_a}\r\n"))
-    body = s2b(req.get("body", ""))
-    framing = req.get("framing", "none")
-    if framing == "cl":
-        out.append(s2b(f"content-length: {len(body)}\r\n"))
-    elif framing == "chunked":
-        out.append(b"transfer-encoding: chunked\r\n")
     out.append(b"\r\n")
     if framing == "cl":
         out.append(body)
@@ -74,14 +86,10 @@ def percent_decode(raw: str) -> bytes:
 
 def expected_http_scope(req: Dict[str, Any], raw_headers: bool = False) -> Dict[str, Any]:
     hdrs = []
-    for h in req.get("headers", []):
+    body = s2b(req.get("body", ""))
+    for h in _with_framing(req, len(body)):
         name = s2b(h[0]) if raw_headers else s2b(h[0]).lower()
         hdrs.append((name, s2b(h[1]).strip(b" \t")))
-    body = s2b(req.get("body", ""))
-    if req.get("framing") == "cl":
-        hdrs.append((b"content-length", str(len(body)).encode()))
-    elif req.get("framing") == "chunked":
-        hdrs.append((b"transfer-encoding", b"chunked"))
     return {
         "type": "http",
         "method": req["method"].upper(),
